@@ -69,7 +69,7 @@ func e2Family(tier string, amevs []int64) []*Job {
 					two = append(two, i)
 				}
 			}
-			s1 := E2Spec{Views: 1, Proposals: "AB", Responses: "ABO", Commits: "ABGO", PreCommits: pc, MaxDepth: 14, StateCap: cap1, NoTimeout: false}
+			s1 := E2Spec{Views: 1, Proposals: "AB", WrongPrim: true, Responses: "ABO", Commits: "ABGO", PreCommits: pc, MaxDepth: 14, StateCap: cap1, NoTimeout: false}
 			if a >= 0 {
 				// keep the one-view stratum exhaustible under anti-MEV: responses from two peers only
 				s1.Peers = nil
